@@ -87,6 +87,22 @@ func (s *syncStore[H]) Append(ctx context.Context, headers ...H) error {
 
 		s.head.Store(&head)
 	}
+	if headers[len(headers)-1].Height() <= head.Height() {
+		// nothing above the head: only heights the Store does not hold yet (an extension below the
+		// tail) are written. A height that is stored already is never written again: the header may
+		// be a different one (e.g. the trusted peers' head arriving after an equivocating header of
+		// that height got synced), and both would end up in the Store.
+		fresh := make([]H, 0, len(headers))
+		for _, h := range headers {
+			if !s.Store.HasAt(ctx, h.Height()) {
+				fresh = append(fresh, h)
+			}
+		}
+		if len(fresh) == 0 {
+			return nil
+		}
+		headers = fresh
+	}
 	verifYield("sstore:append")
 
 	if err := s.Store.Append(ctx, headers...); err != nil {
